@@ -41,7 +41,7 @@ func (c attrSelector) String() string {
 	if c.operation == "#=" {
 		val = c.regexp.String()
 	} else if c.operation != "" {
-		val = fmt.Sprintf(`"%s"`, val)
+		val = quoteString(val)
 	}
 
 	ignoreCase := ""
@@ -50,6 +50,30 @@ func (c attrSelector) String() string {
 	}
 
 	return fmt.Sprintf(`[%s%s%s%s]`, c.key, c.operation, val, ignoreCase)
+}
+
+// quoteString writes a CSS string: quotes and backslashes are escaped, line
+// breaks are written as hexadecimal escapes (a string can not hold them raw)
+func quoteString(val string) string {
+	var b strings.Builder
+	b.WriteByte('"')
+	for _, r := range val {
+		switch r {
+		case '"', '\\':
+			b.WriteByte('\\')
+			b.WriteRune(r)
+		case '\n':
+			b.WriteString(`\a `)
+		case '\r':
+			b.WriteString(`\d `)
+		case '\f':
+			b.WriteString(`\c `)
+		default:
+			b.WriteRune(r)
+		}
+	}
+	b.WriteByte('"')
+	return b.String()
 }
 
 func (c relativePseudoClassSelector) String() string {
